@@ -32,7 +32,8 @@ def make_files(h, wd, rng):
     import obspy
     from obspy import Trace, Stream, UTCDateTime
     names = {}
-    for stem, fs in (("big1", 500.0), ("big2", 500.0), ("small1", 100.0), ("small2", 100.0)):
+    # small1 (100 Hz) and small2 (50 Hz) need the same FFT length (32 768) but fill it with 12 001 resp. 6 001 samples per window
+    for stem, fs in (("big1", 500.0), ("big2", 500.0), ("small1", 100.0), ("small2", 50.0)):
         n = int(245 * fs)
         t = np.arange(n) / fs
         trs = []
@@ -113,11 +114,19 @@ def main():
         cs = max(1, len(files) // nproc)
         chunks = [files[i:i + cs] for i in range(0, len(files), cs)]
         return any(any(a.startswith("big") and b.startswith("small") for i, a in enumerate(ch) for b in ch[i + 1:]) for ch in chunks)
+
+    def risky2(k):      # the longer-window file of the same FFT class before the shorter-window one in one chunk
+        files, nproc = k
+        cs = max(1, len(files) // nproc)
+        chunks = [files[i:i + cs] for i in range(0, len(files), cs)]
+        return any("small1" in ch and "small2" in ch and ch.index("small1") < ch.index("small2") for ch in chunks)
     rk = [k for k in keys if risky(k)]
-    rest = [k for k in keys if not risky(k)]
+    rk2 = [k for k in keys if risky2(k) and not risky(k)]
+    rest = [k for k in keys if not risky(k) and not risky2(k)]
     r2 = np.random.RandomState(run.seed)
-    r2.shuffle(rk); r2.shuffle(rest)
-    chosen = (rk[:4] + rest[:2]) if run.quick else (rk[:24] + rest[:16])
+    r2.shuffle(rk); r2.shuffle(rk2); r2.shuffle(rest)
+    chosen = (rk[:3] + rk2[:2] + rest[:1]) if run.quick else (rk[:24] + rk2[:8] + rest[:12])
+    run.notes["configs_same_fft_class_longer_window_first"] = len([k for k in chosen if risky2(k)])
     runs = []
     env = dict(os.environ, HVSRPY_VERIF="1", PYTHONPATH=REPO, MPLBACKEND="Agg", PYTHONWARNINGS="ignore")
     for ci, (files, nproc) in enumerate(chosen):
